@@ -216,7 +216,10 @@ func RunRandPlonk(p *Prog, r *Report) {
 		return false
 	}), 4, "%d random polynomials stored into instance.bp", "only %d random polynomials stored into instance.bp (need %d: L, R, O, Z)")
 	// (c) commitments of L, R, O, Z include their blinding polynomial
-	for _, site := range []struct{ fn, key string; min int }{{"(*instance).commitToLRO", "blinded:LRO", 3}, {"(*instance).buildRatioCopyConstraint", "blinded:Z", 1}} {
+	for _, site := range []struct {
+		fn, key string
+		min     int
+	}{{"(*instance).commitToLRO", "blinded:LRO", 3}, {"(*instance).buildRatioCopyConstraint", "blinded:Z", 1}} {
 		report("RAND-FLOW", site.key, count(base+site.fn, func(c *ssa.Call) bool {
 			if !strings.HasSuffix(CalleeName(&c.Call), ".commitToPolyAndBlinding") {
 				return false
